@@ -15,7 +15,7 @@ LEVEL_TEXT = ("Randomised schedules (per-invocation virtual latencies incl. ties
 LEVEL_NOTE = ("Trusted: CPython asyncio, instrumentation shim (transparent spans), virtual clock, the probes wrapping control_loop._reduce_tick / "
               "rewind_in_progress from outside. Sync (threaded) steps are covered by a small real-thread workload only.")
 DESIGN_REF = "§5 C01"
-RULE = ("case = one generated program (fan family) + schedule; distinct = hash of the tick-order signature (tick type, step, worker id); "
+RULE = ("case = one generated program (fan / collect / wait / catch families) + schedule; distinct = hash of the tick-order signature (tick type, step, worker id); "
         "non-trivial = some step reached full capacity with a non-empty queue")
 REQUIRED_REACH = ["body_enter", "reducer_post", "stream_slot_events", "queue_nonempty",
                   "state_full_capacity_nw1", "state_full_capacity_nw2", "state_full_capacity_nw3", "state_full_capacity_nw4",
@@ -34,8 +34,10 @@ def gen_case(seed):
 
     rnd = random.Random(seed)
     kind = rnd.choice(["fan", "fan", "fan", "resume", "sync"]) if seed % 7 else "sync"
-    spec = gen.gen_fan(rnd, hitl=False)
+    fam = rnd.choice(["fan", "fan", "fan", "collect", "collect", "wait", "catch"])
+    spec = {"fan": lambda r: gen.gen_fan(r, hitl=False), "collect": gen.gen_collect, "wait": gen.gen_wait, "catch": gen.gen_catch}[fam](rnd)
     spec["sched_seed"] = seed
+    spec["family"] = fam
     return {"kind": kind, "seed": seed, "spec": spec, "snap_at": rnd.randint(2, 25)}
 
 
